@@ -459,9 +459,10 @@ class timestamp( object ):
 
         """
         try:
-            terms		= str( s ).translate( cls._timeseps ).split()
-            if not terms[-1].isdigit(): # Hmm; Last term isn't digits; must be a timezone.
-                terms,tzinfo	= terms[:-1],terms[-1]
+            terms		= str( s ).split()
+            if not terms[-1][:1].isdigit(): # Hmm; Last word doesn't start w/ a digit; must be a timezone
+                terms,tzinfo	= terms[:-1],terms[-1]	# ... which may contain '-', eg. Etc/GMT-5
+            terms		= ' '.join( terms ).translate( cls._timeseps ).split()
             is_dst		= None
             if tzinfo is None:
                 tzinfo		= cls.UTC
